@@ -10,7 +10,12 @@ import (
 )
 
 func init() {
-	register("C07", "operands are evaluated exactly once, left to right; skipped operands never run", checkC07)
+	register("C07", "operands are evaluated exactly once, left to right; skipped operands never run", func(p *Program, r *Report) {
+		checkC07(p, r)
+		if m, err := buildVMModel(p); err == nil {
+			c07NoSilentSkip(p, r, m, buildEvalAnalysis(m))
+		}
+	})
 }
 
 // node kinds whose fields are deliberately not evaluated in source order, with the reason (not listed by the property).
@@ -48,7 +53,8 @@ func checkC07(p *Program, r *Report) {
 		"R3 an error stops the operand list: at every evaluation event the err cell is provably nil (abstract error-cell analysis with callee summaries). " +
 		"R4 skipped operands: ?: evaluates one branch; || and && return without the right operand on the toBool-true / toBool-false edge with true / false; ?? evaluates the right side only on error or nil. " +
 		"R5 the direct-call fast path has evaluated nothing and left the error cell untouched when it reports 'not handled'. " +
-		"R6 deferred and go calls evaluate callee and arguments at the statement: the functions that run later contain no evaluation event.")
+		"R6 deferred and go calls evaluate callee and arguments at the statement: the functions that run later contain no evaluation event. " +
+		"R7 no silent skip: outside ?:, &&, ||, ?? a handler that evaluates a scalar operand of its node does so on every path to a successful return (operands the grammar may leave out, tested against nil, excepted).")
 	r.Assume("x op= e / x++ evaluate the operands of x twice by construction of the parser (documented exception); order inside host Go functions is not decided")
 	m, err := buildVMModel(p)
 	if err != nil {
@@ -777,4 +783,86 @@ func (m *vmModel) bothExprFields(kind, f, g string) bool {
 		}
 	}
 	return n == 2
+}
+
+// c07NoSilentSkip (R7): outside the short-circuit constructs, a handler that evaluates a scalar operand of its node evaluates
+// it on every path to a successful return (optional operands, tested against nil, excepted).
+func c07NoSilentSkip(p *Program, r *Report, m *vmModel, va *evalAnalysis) {
+	exempt := map[string]bool{"TernaryOpExpr": true, "NilCoalescingOpExpr": true, "BinaryOperator": true}
+	n := 0
+	for _, role := range []string{"expr", "op", "let"} {
+		var kinds []string
+		for k := range m.handlers[role] {
+			kinds = append(kinds, k)
+		}
+		sort.Strings(kinds)
+		for _, kind := range kinds {
+			h := m.handlers[role][kind]
+			if exempt[kind] || h == nil || len(h.Blocks) == 0 {
+				continue
+			}
+			tt := newTypeTerms(m, h, nil)
+			// scalar operands evaluated by this handler
+			evalBlocks := map[string]map[*ssa.BasicBlock]bool{}
+			for _, e := range va.events[h] {
+				if e.role != "expr" && e.role != "op" {
+					continue
+				}
+				for _, o := range e.operands {
+					f, indexed, direct := fieldOfPath(o)
+					if f == "" || indexed || !direct {
+						continue
+					}
+					if evalBlocks[f] == nil {
+						evalBlocks[f] = map[*ssa.BasicBlock]bool{}
+					}
+					evalBlocks[f][e.call.Block()] = true
+				}
+			}
+			var fields []string
+			for f := range evalBlocks {
+				fields = append(fields, f)
+			}
+			sort.Strings(fields)
+			for _, f := range fields {
+				if c07Optional(h, f) {
+					continue
+				}
+				n++
+				stop := func(b *ssa.BasicBlock) bool { return evalBlocks[f][b] || c10ErrorBlock(m, tt, b) }
+				esc := ""
+				if !stop(h.Blocks[0]) {
+					for b := range reachable(h.Blocks[0], stop) {
+						if stop(b) || b == h.Recover {
+							continue
+						}
+						if ret, ok := b.Instrs[len(b.Instrs)-1].(*ssa.Return); ok {
+							esc = p.Pos(instrPos(ret))
+						}
+					}
+				}
+				r.Check(esc == "", "C07.R7", fmt.Sprintf("%s|operand %s is evaluated on every successful path", h.Name(), f), p.Pos(h.Pos()), "no successful return before its evaluation",
+					"the handler can return successfully (at "+esc+") without having evaluated operand "+f+": its side effects and errors are silently skipped although the construct does not short-circuit")
+			}
+		}
+	}
+	r.Floor("C07.R7", n, 20)
+}
+
+// c07Optional: the handler tests node.<f> against nil (an operand the grammar may leave out).
+func c07Optional(h *ssa.Function, f string) bool {
+	for _, b := range h.Blocks {
+		for _, in := range b.Instrs {
+			bo, ok := in.(*ssa.BinOp)
+			if !ok || (bo.Op != token.EQL && bo.Op != token.NEQ) || !isNilConst(bo.Y) {
+				continue
+			}
+			if u, ok := bo.X.(*ssa.UnOp); ok {
+				if fa, ok := u.X.(*ssa.FieldAddr); ok && fieldOfAddr(fa).Name() == f {
+					return true
+				}
+			}
+		}
+	}
+	return false
 }
